@@ -1,4 +1,6 @@
 #pragma once
+#include "cli/cli.hpp"
+#include <fcntl.h>
 // pbo <hex file bytes> [absent] : the bytes are written to a scratch directory, opened through
 // rvutils::pbo::pbofile the way the command line does (existence test, then the constructor), listed, every
 // entry is read through the archive and through the virtual file system under the archive's prefix, and
@@ -92,6 +94,18 @@ namespace vh
                     else { out += "noprefix"; }
                 }
             }
+        }
+        {
+            // the command line itself: sqfvm -a --input-pbo <file>; its output goes nowhere (the result of the case
+            // travels through the pipe of the harness, not through stdout)
+            int devnull = open("/dev/null", O_WRONLY);
+            if (devnull >= 0) { dup2(devnull, 1); dup2(devnull, 2); close(devnull); }
+            std::string path = file.string();
+            const char* argv[] = { "sqfvm", "-a", "--suppress-welcome", "--no-execute-print", "--no-load-executable-dir", "--no-spawn-player", "--input-pbo", path.c_str() };
+            int rc = -1;
+            try { cli c; rc = c.run(8, argv); }
+            catch (const std::exception&) { rc = -2; }
+            out += " cli=" + std::string(rc == -2 ? "exception" : "returned");
         }
         std::string after = dir_state(dir);
         out += before == after ? " fs=unchanged" : " fs=CHANGED(" + before + " -> " + after + ")";
